@@ -67,7 +67,7 @@ fn run_history(bytes: &[u8], hist: &[Option<Rect>], fulls: &[Full]) -> Result<()
 }
 
 fn critical(n: u32, quick: bool) -> Vec<u32> {
-    let mut v: Vec<i64> = if quick { vec![0, 1, 8, 9, (n / 2) as i64, 127, 128, 129, n as i64 - 1, n as i64] } else { vec![0, 1, 7, 8, 9, 15, 16, 17, 63, 64, 65, 127, 128, 129, 255, 256, 257, n as i64 - 9, n as i64 - 8, n as i64 - 1, n as i64] };
+    let mut v: Vec<i64> = if quick { vec![0, 1, 8, 9, (n / 2) as i64, 127, 128, 129, 255, 256, 257, n as i64 - 1, n as i64] } else { vec![0, 1, 7, 8, 9, 15, 16, 17, 63, 64, 65, 127, 128, 129, 255, 256, 257, n as i64 - 9, n as i64 - 8, n as i64 - 1, n as i64] };
     v.retain(|&x| x >= 0 && x <= n as i64);
     v.sort();
     v.dedup();
@@ -123,7 +123,13 @@ pub fn main(args: &crate::Args) {
         } else if positional && w * h <= 2000 {
             ((0..=w).collect(), if quick { critical(h, true) } else { (0..=h).collect() })
         } else if huge && quick {
-            (vec![0, 1, 255, 256, w - 1, w], vec![0, 129, 256, 257, h - 1, h])
+            let norm = |mut v: Vec<u32>, n: u32| {
+                v.retain(|&x| x <= n);
+                v.sort();
+                v.dedup();
+                v
+            };
+            (norm(vec![0, 1, 255, 256, w - 1, w], w), norm(vec![0, 129, 256, 257, h - 1, h], h))
         } else {
             (critical(w, quick || huge), critical(h, quick || huge))
         };
@@ -170,7 +176,7 @@ pub fn main(args: &crate::Args) {
             Err((k, w)) => {
                 rep.outcome("mismatch");
                 let b = &streams[*si].1;
-                let mut payload = if b.len() < 6000 { json!({"stream_hex": hex(b)}) } else { json!({"stream_file": "/repo/crates/jxl-oxide-tests/tests/cms/cmyk_layers.jxl"}) };
+                let mut payload = if name != "cmyk_layers.jxl" { json!({"stream_hex": hex(b)}) } else { json!({"stream_file": "/repo/crates/jxl-oxide-tests/tests/cms/cmyk_layers.jxl"}) };
                 payload["item"] = json!(name);
                 payload["history"] = json!(hist.iter().map(|r| r.map(|r| vec![r.0, r.1, r.2, r.3])).collect::<Vec<_>>());
                 rep.violation(&format!("{k}:{name}"), &format!("{w} [{name}]"), &payload);
@@ -183,7 +189,7 @@ pub fn main(args: &crate::Args) {
     rep.extra.insert("streams".into(), json!(streams.len()));
     rep.extra.insert("streams_dropped".into(), json!(preps.iter().filter(|p| p.is_none()).count()));
     rep.exhaustive = true;
-    rep.assumptions = vec!["differential oracle: the full render of the same decoder; corpus is Modular-only plus one real file, so VarDCT filters/upsampling/noise padding are not reached (stated limit)".into()];
+    rep.assumptions = vec!["differential oracle: the full render of the same decoder; the jxlw corpus (Modular and VarDCT incl. filters, upsampling, noise, splines, patches, LF frames, large varblocks) plus one real file".into()];
     rep.finish();
 }
 
